@@ -134,7 +134,7 @@ int vf_epoll_wait(int ep, struct epoll_event *evs, int max, int timeout) {
         if (n >= max) break;
         if (f->kind == VF_FREE || !f->ep_in || f->ep_disabled) continue;
         if (vf_ready_now(f)) {
-            evs[n] = f->ev; evs[n].events = EPOLLIN; n++;
+            evs[n] = f->ev; evs[n].events = EPOLLIN | (f->hup ? EPOLLHUP : 0); n++;
             if (f->ev.events & EPOLLONESHOT) f->ep_disabled = true;
         }
     }
